@@ -143,13 +143,17 @@ func runHybridHistory(r *rand.Rand, o hybridOpts, t *Trace) *Case {
 	if hasV && kind != 0 && r.Intn(8) != 0 {
 		train()
 	}
-	twinText := ""     // the text of the last document added with one
-	var heldRun func() // a search builder kept across the history
+	var removeNext *uint32 // the id the next operation removes (the id of an add that was just refused)
+	twinText := ""         // the text of the last document added with one
+	var heldRun func()     // a search builder kept across the history
 	for step := 0; step < o.nops; step++ {
 		if heldRun != nil && r.Intn(5) == 0 {
 			heldRun()
 		}
 		x := r.Intn(100)
+		if removeNext != nil {
+			x = 40 // a refused add is followed by a Remove of that very id: there is nothing to remove
+		}
 		switch {
 		case x < 34: // add
 			var vec []float32
@@ -265,6 +269,10 @@ func runHybridHistory(r *rand.Rand, o hybridOpts, t *Trace) *Case {
 					gone = append(gone, id)
 				}
 				t.Stat("hyb.add_error")
+				if !auto && r.Intn(2) == 0 {
+					rid := id
+					removeNext = &rid
+				}
 			}
 		case x < 46: // remove
 			var id uint32
@@ -276,6 +284,10 @@ func runHybridHistory(r *rand.Rand, o hybridOpts, t *Trace) *Case {
 				id = gone[r.Intn(len(gone))]
 			default:
 				id = uint32(9000 + r.Intn(3))
+			}
+			if removeNext != nil {
+				id, removeNext = *removeNext, nil
+				t.Stat("hyb.remove_after_refused_add")
 			}
 			e := h.Remove(id)
 			code := errCodeHybrid(e)
